@@ -3,6 +3,7 @@ module verif
 go 1.23.0
 
 require (
+	github.com/openziti/foundation/v2 v2.0.59
 	github.com/openziti/storage v0.0.0
 	go.etcd.io/bbolt v1.4.0
 	pgregory.net/rapid v1.3.0
@@ -17,7 +18,6 @@ require (
 	github.com/mattn/go-isatty v0.0.14 // indirect
 	github.com/mgutz/ansi v0.0.0-20200706080929-d51e80ef957d // indirect
 	github.com/michaelquigley/pfxlog v0.6.10 // indirect
-	github.com/openziti/foundation/v2 v2.0.59 // indirect
 	github.com/pkg/errors v0.9.1 // indirect
 	github.com/pmezard/go-difflib v1.0.0 // indirect
 	github.com/sirupsen/logrus v1.8.1 // indirect
